@@ -67,11 +67,15 @@ def functions():
     eb.output.append(_vi("cond_else_o", TP.FLOAT, None))
     ci = helper.make_node("If", ["cc"], ["co"], name="cond_if", then_branch=tb, else_branch=eb)
     fs.append(helper.make_function("local", "CondFn", ["cx", "cc"], ["co"], [ci], [helper.make_opsetid("", OPSET), helper.make_opsetid("local", 1)]))
-    return {"Scale": fs[0], "Twice": fs[1], "NoDef": fs[2], "Bin": fs[3], "Fwd": fs[4], "CondFn": fs[5]}
+    # Bias(ax) = ax + [1, -2]: a literal (non-reference) Constant at the top level of a function body
+    k1 = helper.make_node("Constant", [], ["bias_c"], name="bias_const", value_floats=[1.0, -2.0])
+    k2 = helper.make_node("Add", ["ax", "bias_c"], ["ao"], name="bias_add")
+    fs.append(helper.make_function("local", "Bias", ["ax"], ["ao"], [k1, k2], [helper.make_opsetid("", OPSET)]))
+    return {"Scale": fs[0], "Twice": fs[1], "NoDef": fs[2], "Bin": fs[3], "Fwd": fs[4], "CondFn": fs[5], "Bias": fs[6]}
 
 
 FORMS_0IN = [("ConstT",), ("ConstF",), ("ConstFs",), ("ConstI",)]
-FORMS_1IN = ["Neg", "Relu", "Identity", "Abs", "CastF", "Clip", "Dropout1", "Dropout2", "Split2", "CallScale", "CallScaleDefault", "CallTwice", "CallNoDef", "CallBin", "CallFwd", "CallFwdDefault", "CallCond"]
+FORMS_1IN = ["Neg", "Relu", "Identity", "Abs", "CastF", "Clip", "Dropout1", "Dropout2", "Split2", "CallScale", "CallScaleDefault", "CallTwice", "CallNoDef", "CallBin", "CallFwd", "CallFwdDefault", "CallCond", "CallBias"]
 FORMS_2IN_COMM = ["Add", "Mul"]
 FORMS_2IN = ["Sub"]
 IF_FORMS = [("id", "neg"), ("add", "id"), ("idid", "const"), ("init", "id"), ("call", "id"), ("nested", "id")]
@@ -219,6 +223,8 @@ def make_node(form, idx):
         return [helper.make_node("Fwd", [form[1]], [o], name=nm, domain="local")], [o], [], {"Fwd", "Scale"}
     if kind == "CallCond":
         return [helper.make_node("CondFn", [form[1], "c"], [o], name=nm, domain="local")], [o], [], {"CondFn", "Scale"}
+    if kind == "CallBias":
+        return [helper.make_node("Bias", [form[1]], [o], name=nm, domain="local")], [o], [], {"Bias"}
     if kind == "ClipMin":
         return [helper.make_node("Clip", [form[1], form[2]], [o], name=nm)], [o], [], used
     if kind == "ClipMax":
@@ -270,7 +276,7 @@ def _make_model(forms, outputs, extra_unused_function=False):
             e.key, e.value = "origin", nd.name
     if len(g.node) > 1:
         g.doc_string = "main graph doc"
-    m = helper.make_model(g, opset_imports=opsets, ir_version=10, functions=[fns[k] for k in ("Scale", "Twice", "NoDef", "Bin", "Fwd", "CondFn") if k in used])
+    m = helper.make_model(g, opset_imports=opsets, ir_version=10, functions=[fns[k] for k in ("Scale", "Twice", "NoDef", "Bin", "Fwd", "CondFn", "Bias") if k in used])
     # the checker wants a shape on main-graph outputs: take the rank from one evaluation, dims symbolic
     from mc import evalproto
 
